@@ -1,5 +1,5 @@
 (* C11 - lemmas about the model of Text/TypeNames.v *)
-From Coq Require Import String Ascii NArith ZArith PeanoNat List Bool Lia.
+From Coq Require Import String Ascii NArith ZArith PeanoNat List Bool Lia ZifyBool ZifyN ZifyNat.
 From HV Require Import Base.Bytes Base.Strto Base.Snprintf Gen.Tables Text.TypeOrder Text.TypeNames.
 Import ListNotations.
 Local Open Scope N_scope.
@@ -371,4 +371,190 @@ Proof.
   destruct (N.eqb_spec (ao_type a) HWLOC_OBJ_BRIDGE) as [Eb|Nb].
   { rewrite (Hb Eb), N.eqb_refl. destruct (flag_set flags VERBOSE_MASK); eexists; reflexivity. }
   destruct (ao_type a =? HWLOC_OBJ_PCI_DEVICE); destruct (flag_set flags VERBOSE_MASK); eexists; reflexivity.
+Qed.
+
+(* ================================================================== *)
+(* round trip: hwloc_type_sscanf (hwloc_obj_type_snprintf o) *)
+
+(* what hwloc_type_sscanf must store for o when attributes are requested *)
+Definition expected_write (o : tobj) : attr_write :=
+  let t := to_type o in
+  if tcache t then AWcache (to_cdepth o) (Z.of_N (to_ctype o))
+  else if t =? HWLOC_OBJ_GROUP then AWgroup (to_gdepth o)
+  else if t =? HWLOC_OBJ_BRIDGE then AWbridge (Z.of_N (to_bup o)) (Z.of_N (to_bdown o))
+  else if t =? HWLOC_OBJ_OS_DEVICE then AWosdev (to_os o)
+  else AWnone.
+Definition attr_write_eqb (a b : attr_write) : bool :=
+  match a, b with
+  | AWnone, AWnone => true
+  | AWcache d c, AWcache d' c' => (d =? d') && (c =? c')%Z
+  | AWgroup d, AWgroup d' => d =? d'
+  | AWbridge u d, AWbridge u' d' => (u =? u')%Z && (d =? d')%Z
+  | AWosdev o, AWosdev o' => o =? o'
+  | _, _ => false
+  end.
+(* the printer returns a text; the parser accepts it (with a full-size attribute
+   union and with attrp = NULL), returns the type of o and stores exactly the
+   attributes of o *)
+Definition roundtrip_ok (chk loop : bool) (o : tobj) (flags : N) : bool :=
+  match type_text_gen loop o flags with
+  | PrOk txt =>
+    match type_sscanf chk (txt ++ [0]) (Some SIZEOF_ATTR_UNION), type_sscanf chk (txt ++ [0]) None with
+    | Ok (Some (t, w)), Ok (Some (t', AWnone)) => (t =? to_type o) && (t' =? to_type o) && attr_write_eqb w (expected_write o)
+    | _, _ => false
+    end
+  | _ => false
+  end.
+
+Definition mk (t cd ct gd bu bd os : N) := TO t cd ct gd bu bd os.
+Definition simple_types := [HWLOC_OBJ_MACHINE; HWLOC_OBJ_PACKAGE; HWLOC_OBJ_DIE; HWLOC_OBJ_CORE; HWLOC_OBJ_PU;
+                            HWLOC_OBJ_NUMANODE; HWLOC_OBJ_MEMCACHE; HWLOC_OBJ_PCI_DEVICE; HWLOC_OBJ_MISC].
+Definition simple_objs := map (fun t => mk t 0 0 0 0 0 0) simple_types.
+(* hwloc_cache_type_by_depth_type, regenerated table *)
+Definition cache_type_of (d ct : N) : Z := nthN (nthN cache_type_by_depth_type_tbl d []) ct (-1)%Z.
+Definition cache_objs := flat_map (fun d => flat_map (fun ct =>
+   match cache_type_of d ct with Zneg _ => [] | z => [mk (Z.to_N z) d ct 0 0 0 0] end) [0;1;2]) [1;2;3;4;5].
+Definition bridge_objs := [mk HWLOC_OBJ_BRIDGE 0 0 0 HWLOC_OBJ_BRIDGE_HOST HWLOC_OBJ_BRIDGE_PCI 0;
+                           mk HWLOC_OBJ_BRIDGE 0 0 0 HWLOC_OBJ_BRIDGE_PCI HWLOC_OBJ_BRIDGE_PCI 0].
+Definition osdev_objs := map (fun w => mk HWLOC_OBJ_OS_DEVICE 0 0 0 0 0 (N.of_nat w)) (seq 0 (S (N.to_nat osdev_known_mask))).
+Definition group_none := mk HWLOC_OBJ_GROUP 0 0 NEG1U 0 0 0.
+Definition rt_objs := simple_objs ++ cache_objs ++ bridge_objs ++ osdev_objs ++ [group_none].
+Definition rt_flags := filter (fun f => N.land f HWLOC_OBJ_SNPRINTF_FLAG_SHORT_NAMES =? 0) (map N.of_nat (seq 0 8)).
+
+(* every canonical object x every flag word 0..7 without SHORT_NAMES x both variants of both functions *)
+Lemma roundtrip_finite_all :
+  forallb (fun o => forallb (fun f => roundtrip_ok false true o f && roundtrip_ok true false o f &&
+                                      roundtrip_ok true true o f && roundtrip_ok false false o f) rt_flags) rt_objs = true.
+Proof. vm_compute. reflexivity. Qed.
+
+Lemma roundtrip_finite chk loop o f : In o rt_objs -> In f rt_flags -> roundtrip_ok chk loop o f = true.
+Proof.
+  intros Ho Hf. pose proof roundtrip_finite_all as H. rewrite forallb_forall in H. specialize (H o Ho).
+  rewrite forallb_forall in H. specialize (H f Hf). apply andb_true_iff in H. destruct H as [H H4].
+  apply andb_true_iff in H. destruct H as [H H3]. apply andb_true_iff in H. destruct H as [H1 H2].
+  destruct chk, loop; assumption.
+Qed.
+
+Lemma expected_write_key o1 o2 : to_type o1 = to_type o2 -> tkey o1 = tkey o2 -> expected_write o1 = expected_write o2.
+Proof.
+  intros Ht Hk. unfold tkey in Hk. unfold expected_write. rewrite <- Ht in *.
+  destruct (tcache (to_type o1)). { injection Hk as -> ->. reflexivity. }
+  destruct (to_type o1 =? HWLOC_OBJ_GROUP). { injection Hk as ->. reflexivity. }
+  destruct (to_type o1 =? HWLOC_OBJ_BRIDGE). { injection Hk as -> ->. reflexivity. }
+  destruct (to_type o1 =? HWLOC_OBJ_OS_DEVICE); [|reflexivity]. injection Hk as ->. reflexivity.
+Qed.
+
+Lemma roundtrip_ok_key chk loop o1 o2 f :
+  to_type o1 = to_type o2 -> tkey o1 = tkey o2 -> roundtrip_ok chk loop o1 f = roundtrip_ok chk loop o2 f.
+Proof.
+  intros Ht Hk. unfold roundtrip_ok, type_text_gen.
+  rewrite (type_pieces_function_of_key loop o1 o2 f Ht Hk), (expected_write_key o1 o2 Ht Hk), Ht. reflexivity.
+Qed.
+Lemma roundtrip_ok_flags chk loop o f : roundtrip_ok chk loop o (N.land f 7) = roundtrip_ok chk loop o f.
+Proof. unfold roundtrip_ok, type_text_gen. now rewrite type_pieces_flags. Qed.
+
+Lemma low_flags_in f : N.land f HWLOC_OBJ_SNPRINTF_FLAG_SHORT_NAMES = 0 -> In (N.land f 7) rt_flags.
+Proof.
+  intros H. unfold rt_flags. apply filter_In. split.
+  - apply in_map_iff. exists (N.to_nat (N.land f 7)). split; [apply N2Nat.id|]. apply in_seq.
+    change 7 with (N.ones 3). rewrite N.land_ones. change (2 ^ 3) with 8.
+    assert (f mod 8 < 8) by (apply N.mod_lt; discriminate). lia.
+  - apply N.eqb_eq. rewrite <- N.land_assoc. exact H.
+Qed.
+
+(* any object that agrees with a canonical one on type and printed attributes, any flag word without SHORT_NAMES *)
+Lemma roundtrip_lift chk loop o o' f :
+  In o' rt_objs -> to_type o = to_type o' -> tkey o = tkey o' ->
+  N.land f HWLOC_OBJ_SNPRINTF_FLAG_SHORT_NAMES = 0 -> roundtrip_ok chk loop o f = true.
+Proof.
+  intros Hi Ht Hk Hf. rewrite <- roundtrip_ok_flags, (roundtrip_ok_key chk loop o o' _ Ht Hk).
+  apply roundtrip_finite; [exact Hi|apply low_flags_in, Hf].
+Qed.
+
+Lemma in_rt_simple t : In t simple_types -> In (mk t 0 0 0 0 0 0) rt_objs.
+Proof. intros H. unfold rt_objs. apply in_or_app. left. unfold simple_objs. exact (in_map (fun t => mk t 0 0 0 0 0 0) simple_types t H). Qed.
+Lemma in_rt_osdev w : w <= osdev_known_mask -> In (mk HWLOC_OBJ_OS_DEVICE 0 0 0 0 0 w) rt_objs.
+Proof.
+  intros H. unfold rt_objs. do 3 (apply in_or_app; right). apply in_or_app; left.
+  unfold osdev_objs. apply in_map_iff. exists (N.to_nat w). split; [now rewrite N2Nat.id|]. apply in_seq. lia.
+Qed.
+
+(* ---------- Group<depth> for every unsigned depth ---------- *)
+Definition GROUP_TXT : list N := [71; 114; 111; 117; 112].
+
+Lemma group_pieces loop o f : to_type o = HWLOC_OBJ_GROUP ->
+  type_snprintf_pieces_gen loop o f =
+  PrOk [if negb (to_gdepth o =? NEG1U) then GROUP_TXT ++ dec (to_gdepth o) else GROUP_TXT].
+Proof.
+  intros Ht. unfold type_snprintf_pieces_gen. rewrite Ht.
+  change (tcache HWLOC_OBJ_GROUP) with false. cbv iota.
+  replace ((HWLOC_OBJ_GROUP =? HWLOC_OBJ_MISC) || (HWLOC_OBJ_GROUP =? HWLOC_OBJ_MACHINE) || (HWLOC_OBJ_GROUP =? HWLOC_OBJ_NUMANODE)
+           || (HWLOC_OBJ_GROUP =? HWLOC_OBJ_MEMCACHE) || (HWLOC_OBJ_GROUP =? HWLOC_OBJ_PACKAGE) || (HWLOC_OBJ_GROUP =? HWLOC_OBJ_DIE)
+           || (HWLOC_OBJ_GROUP =? HWLOC_OBJ_CORE) || (HWLOC_OBJ_GROUP =? HWLOC_OBJ_PU)) with false by reflexivity.
+  rewrite N.eqb_refl. change (lit (obj_type_string HWLOC_OBJ_GROUP)) with GROUP_TXT.
+  destruct (negb (to_gdepth o =? NEG1U)); reflexivity.
+Qed.
+
+(* the keyword chain on "Group" followed by a digit: every earlier test fails within the first bytes *)
+Lemma group_phase chk d0 tail : 48 <= d0 <= 57 ->
+  sscanf_phase chk (GROUP_TXT ++ d0 :: tail) = Ok (PhGroup 5).
+Proof.
+  intros H.
+  assert (C : d0 = 48 \/ d0 = 49 \/ d0 = 50 \/ d0 = 51 \/ d0 = 52 \/ d0 = 53 \/ d0 = 54 \/ d0 = 55 \/ d0 = 56 \/ d0 = 57) by lia.
+  destruct chk; repeat destruct C as [-> | C]; try subst d0; vm_compute; reflexivity.
+Qed.
+
+Lemma to_unsigned_small n : n <= UINT_MAX -> to_unsigned (Z.of_N n) = n.
+Proof.
+  intros H. unfold to_unsigned. unfold UINT_MAX in H. rewrite Z.mod_small by lia. apply N2Z.id.
+Qed.
+
+Lemma group_sscanf chk gd :
+  gd <= UINT_MAX ->
+  type_sscanf_vals chk ((GROUP_TXT ++ dec gd) ++ [0]) = Ok (Some (SV HWLOC_OBJ_GROUP gd (-1) (-1) 0)).
+Proof.
+  intros Hgd. destruct (dec_spec gd) as [Hne [Hd Hv]].
+  destruct (dec gd) as [|d0 ds'] eqn:E; [congruence|].
+  assert (Hd0 : 48 <= d0 <= 57).
+  { inversion Hd as [|x l Hx _]; subst. revert Hx. unfold is_digit_in, digit_val, isdigit, isupper, islower.
+    destruct (N.leb_spec 48 d0); destruct (N.leb_spec d0 57); cbn [andb]; try lia;
+    destruct (N.leb_spec 65 d0); destruct (N.leb_spec d0 90); cbn [andb]; try (intros Hx; apply N.ltb_lt in Hx; lia);
+    destruct (N.leb_spec 97 d0); destruct (N.leb_spec d0 122); cbn [andb]; try (intros Hx; apply N.ltb_lt in Hx; lia); discriminate. }
+  unfold type_sscanf_vals.
+  replace ((GROUP_TXT ++ d0 :: ds') ++ [0]) with (GROUP_TXT ++ d0 :: (ds' ++ [0])) by (rewrite <- app_assoc; reflexivity).
+  rewrite (group_phase chk d0 (ds' ++ [0]) Hd0). cbn [bind].
+  unfold group_branch.
+  assert (R5 : rdr (GROUP_TXT ++ d0 :: ds' ++ [0]) 5 = Ok d0) by reflexivity.
+  rewrite R5. cbn [bind].
+  assert (ID : isdigit d0 = true).
+  { unfold isdigit. apply andb_true_iff. split; apply N.leb_le; lia. }
+  rewrite ID.
+  assert (CORE : strto_core (GROUP_TXT ++ (d0 :: ds') ++ 0 :: []) (len GROUP_TXT) 10
+                 = Ok {| sr_neg := false; sr_mag := digits_val 10 (d0 :: ds'); sr_end := len GROUP_TXT + len (d0 :: ds') |}).
+  { apply strto_core_plain; [lia|discriminate|exact Hd|reflexivity|intros X; discriminate]. }
+  change (len GROUP_TXT) with 5 in CORE.
+  replace (GROUP_TXT ++ (d0 :: ds') ++ [0]) with (GROUP_TXT ++ d0 :: ds' ++ [0]) in CORE by reflexivity.
+  unfold strtol. rewrite CORE. cbn [bind sr_neg sr_mag sr_end fst].
+  rewrite Hv. assert (L : LONG_MAX <? gd = false) by (apply N.ltb_ge; unfold LONG_MAX; unfold UINT_MAX in Hgd; lia).
+  rewrite L. rewrite (to_unsigned_small gd Hgd). reflexivity.
+Qed.
+
+Lemma roundtrip_group chk loop o f :
+  to_type o = HWLOC_OBJ_GROUP -> to_gdepth o <= UINT_MAX -> roundtrip_ok chk loop o f = true.
+Proof.
+  intros Ht Hgd.
+  destruct (N.eqb_spec (to_gdepth o) NEG1U) as [E|E].
+  - (* no depth: "Group" *)
+    rewrite (roundtrip_ok_key chk loop o group_none f).
+    + destruct chk, loop; unfold roundtrip_ok, type_text_gen; rewrite (group_pieces _ group_none f eq_refl); vm_compute; reflexivity.
+    + exact Ht.
+    + unfold tkey. rewrite Ht. cbn. now rewrite E.
+  - unfold roundtrip_ok, type_text_gen. rewrite (group_pieces loop o f Ht).
+    apply N.eqb_neq in E. rewrite E. cbn [negb pr_map concat]. rewrite app_nil_r.
+    unfold type_sscanf. rewrite (group_sscanf chk (to_gdepth o) Hgd). cbn [bind sv_type].
+    unfold expected_write. rewrite Ht.
+    change (tcache HWLOC_OBJ_GROUP) with false. cbv iota. rewrite N.eqb_refl.
+    unfold attr_of_vals. cbn [sv_type sv_depth].
+    change (tcache HWLOC_OBJ_GROUP) with false. cbn [andb]. rewrite N.eqb_refl.
+    change (SIZEOF_ATTR_GROUP <=? SIZEOF_ATTR_UNION) with true. cbn [andb attr_write_eqb]. now rewrite N.eqb_refl.
 Qed.
